@@ -419,14 +419,19 @@ var extTypes = []int{5, 10, 11, 13, 16, 18, 23, 35, 43, 45, 44, 50, 51, 0xff01, 
 var opaqueToTLS = []int{21, 27, 28, 34, 49, 17513, 65000, 65535, 1, 2, 255, 256, 0x0a0a, 0x1a1a, 0xfafa, 22, 15, 20, 47}
 
 func genSNI(r *hx.Rand, wf bool) extJ {
-	name := []byte(r.Pick([]string{"example.com", "a", "xn--mnchen-3ya.de", label(63, 'a') + ".example", label(253, 'z'), "EXAMPLE.com"}))
-	switch r.Intn(4) {
+	name := []byte(r.Pick([]string{"example.com", "a", "xn--mnchen-3ya.de", label(63, 'a') + ".example", label(253, 'z'), "EXAMPLE.com",
+		"my_service.service.consul", "_ldap._tcp.dc.example"}))
+	switch r.Intn(5) {
 	case 0:
 		name = []byte(randName(r))
 	case 1:
 		name = r.Bytes(r.Range(1, 30)) // arbitrary bytes are a legal opaque HostName on the wire
 		if name[len(name)-1] == '.' {
 			name[len(name)-1] = 'x'
+		}
+	case 2:
+		if r.Chance(1, 3) { // names whose 16-bit length needs its high byte (HostName<1..2^16-1>)
+			name = []byte(label([]int{255, 256, 257, 300, 1000, 5000}[r.Intn(6)], 'n'))
 		}
 	}
 	e := extJ{IsSNI: true, SNI: []nameEntryJ{{0, hex.EncodeToString(name)}}}
